@@ -94,7 +94,7 @@ def _rand_module(h, w):
     return HostModule("srandom", {"randint": HostFn(randint, "srandom.randint", raw=True), "choice": HostFn(choice, "srandom.choice", raw=True)})
 
 
-@harness("C19", cases=[dict(symmetry=s, adjacent=a, move=m) for s in (False, True) for a in (False, True) for m in (False, True)], max_paths=3000)
+@harness("C19", cases=[dict(symmetry=s, adjacent=a, move=m) for s in (False, True) for a in (False, True, "list") for m in (False, True)], max_paths=6000)
 def array_builder_candidates(case):
     if CTX.mode != "sym":
         return
@@ -104,7 +104,16 @@ def array_builder_candidates(case):
     default = choice[0]
     CUR = _z3.Function("CUR", I, I, I)
     cur = Grid(h, w, CUR)
-    b = call(construct, CLS(BU, "ArrayBuilder2D"), h, w, mklist(choice), default, disallow_adjacent=case.adjacent, symmetry=case.symmetry, use_move=case.move)
+    if case.adjacent == "list":
+        # the caller's own list of forbidden offsets: two arbitrary offsets other than (0, 0)
+        OFFS = [(sint("dy0"), sint("dx0")), (sint("dy1"), sint("dx1"))]
+        for (dy, dx) in OFFS:
+            requires(Or(dy != 0, dx != 0))
+        adjacent_arg = mklist(list(OFFS))
+    else:
+        OFFS = OFFS4
+        adjacent_arg = case.adjacent
+    b = call(construct, CLS(BU, "ArrayBuilder2D"), h, w, mklist(choice), default, disallow_adjacent=adjacent_arg, symmetry=case.symmetry, use_move=case.move)
     check("constructor-no-exception", not b.raised)
     if b.raised:
         return
@@ -145,13 +154,13 @@ def array_builder_candidates(case):
         if case.adjacent and not (case.move and len(ups) in (2, 4) and _is_swap(ups, CUR)):
             for (y, x, v) in ups[:1]:
                 if bool(v != default):
-                    for (dy, dx) in OFFS4:
+                    for (dy, dx) in OFFS:
                         ny, nx = y + dy, x + dx
-                        if bool(And(ny >= 0, ny < h, nx >= 0, nx < w)):
-                            check("no-non-default-neighbour-at-a-forbidden-offset", SInt(CUR(_zint(ny), _zint(nx))) == default)
+                        check("no-non-default-neighbour-at-a-forbidden-offset",
+                              implies(And(ny >= 0, ny < h, nx >= 0, nx < w), SInt(CUR(_zint(ny), _zint(nx))) == default))
                     if case.symmetry and len(ups) == 2:
                         y2, x2 = ups[1][0], ups[1][1]
-                        check("mirror-cell-not-at-a-forbidden-offset", And(*[Not(And(y2 - y == dy, x2 - x == dx)) for dy, dx in OFFS4]))
+                        check("mirror-cell-not-at-a-forbidden-offset", And(*[Not(And(y2 - y == dy, x2 - x == dx)) for dy, dx in OFFS]))
 
     watch("append", KC, "ret", on_append)
     T = {"ret": "list:ref", "y": "int", "x": "int", "y1": "int", "x1": "int", "y2": "int", "x2": "int", "y1b": "int", "x1b": "int", "y2b": "int", "x2b": "int",
